@@ -41,8 +41,10 @@ pub fn max_abs_diff(a: &[f64], b: &[f64]) -> f64 {
     a.iter().zip(b).fold(0.0f64, |m, (x, y)| m.max((x - y).abs()))
 }
 
+/// bit-for-bit equality; two NaNs are equal whatever their sign and payload (the payload of a NaN is not a
+/// computed value: -(NaN) and NaN differ in a bit)
 pub fn bits_eq(a: &[f64], b: &[f64]) -> bool {
-    a.len() == b.len() && a.iter().zip(b).all(|(x, y)| x.to_bits() == y.to_bits())
+    a.len() == b.len() && a.iter().zip(b).all(|(x, y)| x.to_bits() == y.to_bits() || (x.is_nan() && y.is_nan()))
 }
 
 pub fn bits_eq2(a: &[Vec<f64>], b: &[Vec<f64>]) -> bool {
